@@ -65,9 +65,11 @@ def _assigned_names(stmts_):
                 out.add(n.id)
             elif isinstance(n, (ast.Assign, ast.AugAssign)):
                 for t in (n.targets if isinstance(n, ast.Assign) else [n.target]):
+                    attr = False
                     while isinstance(t, (ast.Subscript, ast.Attribute)):
+                        attr = attr or isinstance(t, ast.Attribute)
                         t = t.value
-                    if isinstance(t, ast.Name):
+                    if isinstance(t, ast.Name) and not attr:   # `obj.a = ...` leaves the name `obj` bound to the same object
                         out.add(t.id)
     return out
 
